@@ -16,6 +16,7 @@ import (
 	"strings"
 
 	ht "github.com/ogen-go/ogen/http"
+	"github.com/ogen-go/ogen/middleware"
 
 	"scratch/api"
 	"scratch/drv"
@@ -27,7 +28,7 @@ type handler struct {
 }
 
 func (h handler) PostF(ctx context.Context, req *api.PostFReq) error { *h.called++; return h.err() }
-func (h handler) PutO(ctx context.Context, req api.PutOReq) error   { *h.called++; return h.err() }
+func (h handler) PutO(ctx context.Context, req api.PutOReq) error    { *h.called++; return h.err() }
 func (h handler) PostM(ctx context.Context, req *api.PostMReq) error {
 	*h.called++
 	_, _ = io.ReadAll(req.F.File)
@@ -37,6 +38,9 @@ func (h handler) PostV(ctx context.Context, req *api.V, p api.PostVParams) (api.
 	*h.called++
 	if err := h.err(); err != nil {
 		return nil, err
+	}
+	if *h.outcome == "nil" {
+		return nil, nil // a handler that forgets its response: a handler failure, answered 500
 	}
 	if *h.outcome == "default" {
 		return &api.PostVDefStatusCode{StatusCode: 418, Response: api.PostVDef{Msg: "teapot"}}, nil
@@ -166,10 +170,20 @@ func main() {
 	ctx := context.Background()
 	called := 0
 	outcome := "ok"
-	srv, err := api.NewServer(handler{&called, &outcome}, sec{})
+	plainSrv, err := api.NewServer(handler{&called, &outcome}, sec{})
 	if err != nil {
 		drv.Fatal("NewServer: %v", err)
 	}
+	// the same server with a middleware that passes everything on: requests and handler outcomes go
+	// through middleware.HookMiddleware and the chain instead of the direct call
+	mwSrv, err := api.NewServer(handler{&called, &outcome}, sec{}, api.WithMiddleware(func(req middleware.Request, next middleware.Next) (middleware.Response, error) {
+		return next(req)
+	}))
+	if err != nil {
+		drv.Fatal("NewServer: %v", err)
+	}
+	var srv http.Handler = plainSrv
+	srvName := "plain"
 	capt := &capture{}
 	client, err := api.NewClient("http://x", sec{}, api.WithClient(capt))
 	if err != nil {
@@ -252,7 +266,7 @@ func main() {
 		}
 		report := func(class, expected string) {
 			k.Expected = expected
-			drv.Violation(map[string]string{"class": class, "stage": stage}, len(strings.Join(names, ""))+10*len(names), k)
+			drv.Violation(map[string]string{"class": class, "stage": stage, "server": srvName}, len(strings.Join(names, ""))+10*len(names), k)
 		}
 		if pan != nil {
 			k.Body = fmt.Sprint(pan)
@@ -283,9 +297,9 @@ func main() {
 				report("body-fault-not-answered-400-or-415", "400/415, handler not invoked")
 			}
 		case "none":
-			want := map[string]int{"ok": 204, "error": 500, "default": 204, "notimpl": 501}[hOutcome]
+			want := map[string]int{"ok": 204, "error": 500, "default": 204, "notimpl": 501, "nil": 204}[hOutcome]
 			if v.name == "postV" {
-				want = map[string]int{"ok": 200, "error": 500, "default": 418, "notimpl": 501}[hOutcome]
+				want = map[string]int{"ok": 200, "error": 500, "default": 418, "notimpl": 501, "nil": 500}[hOutcome]
 			}
 			if called != 1 || code != want {
 				report("valid-request-mishandled", fmt.Sprintf("status %d, handler invoked once", want))
@@ -302,284 +316,290 @@ func main() {
 			}
 		}
 	}
-	for _, v := range valids {
-		v := v
-		var faults []fault
-		mut := func(name, stage string, f func(r *http.Request)) {
-			faults = append(faults, fault{position(name), name, stage, func(r *http.Request, body io.Reader, raw []byte) (*http.Request, io.Reader) { f(r); return r, body }})
-		}
-		bodyMut := func(name, stage string, f func(r *http.Request, raw []byte) io.Reader) {
-			faults = append(faults, fault{"body", name, stage, func(r *http.Request, body io.Reader, raw []byte) (*http.Request, io.Reader) { return r, f(r, raw) }})
-		}
-		for _, m := range []string{"GET", "DELETE", strings.ToLower(v.req.Method), "", "PATCH"} {
-			m := m
-			mut("method="+m, "route", func(r *http.Request) { r.Method = m })
-		}
-		for _, p := range []string{"/", "/nope", v.req.URL.Path + "/", v.req.URL.Path + "/x", "/" + strings.Repeat("a", 70000), ""} {
-			p := p
-			mut("path="+p[:min(len(p), 12)], "route", func(r *http.Request) { r.URL.Path = p; r.URL.RawPath = "" })
-		}
-		for _, rp := range []string{"/%", "/%zz", "/v/%61%", v.req.URL.Path + "%2F", "/v/%37", "/%2f", v.req.URL.Path + "%"} {
-			rp := rp
-			mut("rawpath="+rp, "either", func(r *http.Request) {
-				r.URL.RawPath = rp
-				if un, err := url.PathUnescape(rp); err == nil {
-					r.URL.Path = un
-				}
-			})
-		}
-		if v.name == "postV" {
-			qf := func(name, stage string, m func(q url.Values)) {
-				mut("query:"+name, stage, func(r *http.Request) {
-					q := r.URL.Query()
-					m(q)
-					r.URL.RawQuery = q.Encode()
-				})
+	for _, sv := range []struct {
+		name string
+		h    http.Handler
+	}{{"plain", plainSrv}, {"pass-through middleware", mwSrv}} {
+		srv, srvName = sv.h, sv.name
+		for _, v := range valids {
+			v := v
+			var faults []fault
+			mut := func(name, stage string, f func(r *http.Request)) {
+				faults = append(faults, fault{position(name), name, stage, func(r *http.Request, body io.Reader, raw []byte) (*http.Request, io.Reader) { f(r); return r, body }})
 			}
-			qf("delete q", "params", func(q url.Values) { q.Del("q") })
-			qf("empty q list", "params", func(q url.Values) { q["q"] = []string{} })
-			qf("oq=abc", "params", func(q url.Values) { q.Set("oq", "abc") })
-			qf("oq=1.5", "params", func(q url.Values) { q.Set("oq", "1.5") })
-			qf("oq duplicated", "params", func(q url.Values) { q["oq"] = []string{"1", "2"} })
-			qf("oq huge", "params", func(q url.Values) { q.Set("oq", strings.Repeat("9", 64)) })
-			qf("oq empty", "either", func(q url.Values) { q.Set("oq", "") })
-			qf("delete oq", "none", func(q url.Values) { q.Del("oq") })
-			qf("unknown parameter", "none", func(q url.Values) { q.Set("zzz", "1") })
-			qf("q 64KiB", "none", func(q url.Values) { q.Set("q", strings.Repeat("q", 65536)) })
-			mut("rawquery=%zz", "either", func(r *http.Request) { r.URL.RawQuery = "q=%zz&oq=1" })
-			mut("rawquery=a;b", "either", func(r *http.Request) { r.URL.RawQuery = "q=a;b" })
-			mut("path id=abc", "params", func(r *http.Request) { r.URL.Path = "/v/abc" })
-			mut("path id=0 (below minimum)", "params", func(r *http.Request) { r.URL.Path = "/v/0" })
-			mut("path id empty", "either", func(r *http.Request) { r.URL.Path = "/v/" })
-			mut("path id huge", "params", func(r *http.Request) { r.URL.Path = "/v/" + strings.Repeat("9", 40) })
-			mut("path id=1.0", "params", func(r *http.Request) { r.URL.Path = "/v/1.0" })
-			mut("header deleted", "params", func(r *http.Request) { r.Header.Del("X-H") })
-			mut("header too short", "params", func(r *http.Request) { r.Header.Set("X-H", "h") })
-			mut("header duplicated", "either", func(r *http.Request) { r.Header.Add("X-H", "zz") })
-			mut("header 64KiB", "none", func(r *http.Request) { r.Header.Set("X-H", strings.Repeat("h", 65536)) })
-			mut("header invalid UTF-8", "either", func(r *http.Request) { r.Header.Set("X-H", "\xff\xfe") })
-			mut("cookie malformed escape", "params", func(r *http.Request) { r.Header.Set("Cookie", "ck=%zz") })
-			mut("cookie deleted", "none", func(r *http.Request) { r.Header.Del("Cookie") })
-			mut("cookie garbage", "either", func(r *http.Request) { r.Header.Set("Cookie", ";;;=;ck") })
-			mut("credential missing", "security", func(r *http.Request) { r.Header.Del("X-Key") })
-			mut("credential rejected", "security", func(r *http.Request) { r.Header.Set("X-Key", "evil") })
-			mut("credential empty", "security", func(r *http.Request) { r.Header.Set("X-Key", "") })
-		}
-		if len(v.body) > 0 {
-			isJSON := strings.Contains(v.req.Header.Get("Content-Type"), "json")
-			for _, ct := range []string{"", "text/html", "application/json; charset", ";;;", "APPLICATION/JSON", "application/xml", "multipart/form-data"} {
-				ct := ct
-				st := "body"
-				if ct == "APPLICATION/JSON" || (ct == "application/json; charset" && isJSON) {
-					st = "either"
-				}
-				mut("content-type="+ct, st, func(r *http.Request) {
-					if ct == "" {
-						r.Header.Del("Content-Type")
-					} else {
-						r.Header.Set("Content-Type", ct)
+			bodyMut := func(name, stage string, f func(r *http.Request, raw []byte) io.Reader) {
+				faults = append(faults, fault{"body", name, stage, func(r *http.Request, body io.Reader, raw []byte) (*http.Request, io.Reader) { return r, f(r, raw) }})
+			}
+			for _, m := range []string{"GET", "DELETE", strings.ToLower(v.req.Method), "", "PATCH"} {
+				m := m
+				mut("method="+m, "route", func(r *http.Request) { r.Method = m })
+			}
+			for _, p := range []string{"/", "/nope", v.req.URL.Path + "/", v.req.URL.Path + "/x", "/" + strings.Repeat("a", 70000), ""} {
+				p := p
+				mut("path="+p[:min(len(p), 12)], "route", func(r *http.Request) { r.URL.Path = p; r.URL.RawPath = "" })
+			}
+			for _, rp := range []string{"/%", "/%zz", "/v/%61%", v.req.URL.Path + "%2F", "/v/%37", "/%2f", v.req.URL.Path + "%"} {
+				rp := rp
+				mut("rawpath="+rp, "either", func(r *http.Request) {
+					r.URL.RawPath = rp
+					if un, err := url.PathUnescape(rp); err == nil {
+						r.URL.Path = un
 					}
 				})
 			}
-			step := 1
-			if len(v.body) > 400 {
-				step = 7
-			}
-			for cut := 0; cut < len(v.body); cut += step {
-				cut := cut
-				st := "body"
-				if v.name == "putO-text" || v.name == "postF" || v.name == "postM" {
-					st = "either" // a prefix of text / a form may still be a valid body
+			if v.name == "postV" {
+				qf := func(name, stage string, m func(q url.Values)) {
+					mut("query:"+name, stage, func(r *http.Request) {
+						q := r.URL.Query()
+						m(q)
+						r.URL.RawQuery = q.Encode()
+					})
 				}
-				if cut == 0 && strings.HasPrefix(v.name, "putO") {
-					st = "either" // optional body: zero length means "no body"
-				}
-				bodyMut(fmt.Sprintf("truncate@%d", cut), st, func(r *http.Request, raw []byte) io.Reader {
-					r.ContentLength = int64(cut)
-					return bytes.NewReader(raw[:cut])
-				})
-				bodyMut(fmt.Sprintf("read-error@%d", cut), "either", func(r *http.Request, raw []byte) io.Reader {
-					return &errReader{data: raw, at: cut}
-				})
+				qf("delete q", "params", func(q url.Values) { q.Del("q") })
+				qf("empty q list", "params", func(q url.Values) { q["q"] = []string{} })
+				qf("oq=abc", "params", func(q url.Values) { q.Set("oq", "abc") })
+				qf("oq=1.5", "params", func(q url.Values) { q.Set("oq", "1.5") })
+				qf("oq duplicated", "params", func(q url.Values) { q["oq"] = []string{"1", "2"} })
+				qf("oq huge", "params", func(q url.Values) { q.Set("oq", strings.Repeat("9", 64)) })
+				qf("oq empty", "either", func(q url.Values) { q.Set("oq", "") })
+				qf("delete oq", "none", func(q url.Values) { q.Del("oq") })
+				qf("unknown parameter", "none", func(q url.Values) { q.Set("zzz", "1") })
+				qf("q 64KiB", "none", func(q url.Values) { q.Set("q", strings.Repeat("q", 65536)) })
+				mut("rawquery=%zz", "either", func(r *http.Request) { r.URL.RawQuery = "q=%zz&oq=1" })
+				mut("rawquery=a;b", "either", func(r *http.Request) { r.URL.RawQuery = "q=a;b" })
+				mut("path id=abc", "params", func(r *http.Request) { r.URL.Path = "/v/abc" })
+				mut("path id=0 (below minimum)", "params", func(r *http.Request) { r.URL.Path = "/v/0" })
+				mut("path id empty", "either", func(r *http.Request) { r.URL.Path = "/v/" })
+				mut("path id huge", "params", func(r *http.Request) { r.URL.Path = "/v/" + strings.Repeat("9", 40) })
+				mut("path id=1.0", "params", func(r *http.Request) { r.URL.Path = "/v/1.0" })
+				mut("header deleted", "params", func(r *http.Request) { r.Header.Del("X-H") })
+				mut("header too short", "params", func(r *http.Request) { r.Header.Set("X-H", "h") })
+				mut("header duplicated", "either", func(r *http.Request) { r.Header.Add("X-H", "zz") })
+				mut("header 64KiB", "none", func(r *http.Request) { r.Header.Set("X-H", strings.Repeat("h", 65536)) })
+				mut("header invalid UTF-8", "either", func(r *http.Request) { r.Header.Set("X-H", "\xff\xfe") })
+				mut("cookie malformed escape", "params", func(r *http.Request) { r.Header.Set("Cookie", "ck=%zz") })
+				mut("cookie deleted", "none", func(r *http.Request) { r.Header.Del("Cookie") })
+				mut("cookie garbage", "either", func(r *http.Request) { r.Header.Set("Cookie", ";;;=;ck") })
+				mut("credential missing", "security", func(r *http.Request) { r.Header.Del("X-Key") })
+				mut("credential rejected", "security", func(r *http.Request) { r.Header.Set("X-Key", "evil") })
+				mut("credential empty", "security", func(r *http.Request) { r.Header.Set("X-Key", "") })
 			}
-			bodyMut("content-length larger than body", "either", func(r *http.Request, raw []byte) io.Reader {
-				r.ContentLength = int64(len(raw) + 10)
-				return bytes.NewReader(raw)
-			})
-			// an announced length is the peer's claim, not a bound on what arrives: nothing may size
-			// memory from it
-			for _, huge := range []int64{1 << 31, 1 << 62, 1<<63 - 1} {
-				huge := huge
-				bodyMut(fmt.Sprintf("content-length %d announced", huge), "either", func(r *http.Request, raw []byte) io.Reader {
-					r.ContentLength = huge
+			if len(v.body) > 0 {
+				isJSON := strings.Contains(v.req.Header.Get("Content-Type"), "json")
+				for _, ct := range []string{"", "text/html", "application/json; charset", ";;;", "APPLICATION/JSON", "application/xml", "multipart/form-data"} {
+					ct := ct
+					st := "body"
+					if ct == "APPLICATION/JSON" || (ct == "application/json; charset" && isJSON) {
+						st = "either"
+					}
+					mut("content-type="+ct, st, func(r *http.Request) {
+						if ct == "" {
+							r.Header.Del("Content-Type")
+						} else {
+							r.Header.Set("Content-Type", ct)
+						}
+					})
+				}
+				step := 1
+				if len(v.body) > 400 {
+					step = 7
+				}
+				for cut := 0; cut < len(v.body); cut += step {
+					cut := cut
+					st := "body"
+					if v.name == "putO-text" || v.name == "postF" || v.name == "postM" {
+						st = "either" // a prefix of text / a form may still be a valid body
+					}
+					if cut == 0 && strings.HasPrefix(v.name, "putO") {
+						st = "either" // optional body: zero length means "no body"
+					}
+					bodyMut(fmt.Sprintf("truncate@%d", cut), st, func(r *http.Request, raw []byte) io.Reader {
+						r.ContentLength = int64(cut)
+						return bytes.NewReader(raw[:cut])
+					})
+					bodyMut(fmt.Sprintf("read-error@%d", cut), "either", func(r *http.Request, raw []byte) io.Reader {
+						return &errReader{data: raw, at: cut}
+					})
+				}
+				bodyMut("content-length larger than body", "either", func(r *http.Request, raw []byte) io.Reader {
+					r.ContentLength = int64(len(raw) + 10)
 					return bytes.NewReader(raw)
 				})
-			}
-			bodyMut("content-length unknown", "none", func(r *http.Request, raw []byte) io.Reader {
-				r.ContentLength = -1
-				return bytes.NewReader(raw)
-			})
-			if isJSON {
-				for _, tail := range []string{"x", "{}", "]", ",", " 1"} {
-					tail := tail
-					bodyMut("trailing "+tail, "body", func(r *http.Request, raw []byte) io.Reader {
-						nb := append(raw, tail...)
+				// an announced length is the peer's claim, not a bound on what arrives: nothing may size
+				// memory from it
+				for _, huge := range []int64{1 << 31, 1 << 62, 1<<63 - 1} {
+					huge := huge
+					bodyMut(fmt.Sprintf("content-length %d announced", huge), "either", func(r *http.Request, raw []byte) io.Reader {
+						r.ContentLength = huge
+						return bytes.NewReader(raw)
+					})
+				}
+				bodyMut("content-length unknown", "none", func(r *http.Request, raw []byte) io.Reader {
+					r.ContentLength = -1
+					return bytes.NewReader(raw)
+				})
+				if isJSON {
+					for _, tail := range []string{"x", "{}", "]", ",", " 1"} {
+						tail := tail
+						bodyMut("trailing "+tail, "body", func(r *http.Request, raw []byte) io.Reader {
+							nb := append(raw, tail...)
+							r.ContentLength = int64(len(nb))
+							return bytes.NewReader(nb)
+						})
+					}
+					bodyMut("trailing whitespace", "none", func(r *http.Request, raw []byte) io.Reader {
+						nb := append(raw, " \n\t"...)
+						r.ContentLength = int64(len(nb))
+						return bytes.NewReader(nb)
+					})
+					for _, repl := range [][2]string{{`"abc"`, `1`}, {`1.5`, `"x"`}, {`1.5`, `0.3`}, {`"abc"`, `"ABC"`}, {`"s"`, `"zz"`}, {`{`, `{"extra":1,`}, {`"s":"abc"`, `"s":"abc","s":"abd"`}, {`1.5`, `null`}, {`[1,2]`, `[1,2,3,4]`}, {`[1,2]`, `[1,"a"]`}, {`[1,2]`, `{}`}, {`"k":[`, `"k":[null,`}, {`"n":1.5`, `"n":1.5e400`}, {`"abc"`, `"abc\ud800"`}} {
+						repl := repl
+						if !bytes.Contains(v.body, []byte(repl[0])) {
+							continue
+						}
+						st := "body"
+						if strings.Contains(repl[1], `"s":"abd"`) {
+							st = "either" // duplicate member: no agreed meaning
+						}
+						bodyMut("json "+repl[0]+" -> "+repl[1], st, func(r *http.Request, raw []byte) io.Reader {
+							nb := bytes.Replace(raw, []byte(repl[0]), []byte(repl[1]), 1)
+							r.ContentLength = int64(len(nb))
+							return bytes.NewReader(nb)
+						})
+					}
+					bodyMut("100000-deep nesting", "body", func(r *http.Request, raw []byte) io.Reader {
+						nb := []byte(strings.Repeat("[", 100000))
 						r.ContentLength = int64(len(nb))
 						return bytes.NewReader(nb)
 					})
 				}
-				bodyMut("trailing whitespace", "none", func(r *http.Request, raw []byte) io.Reader {
-					nb := append(raw, " \n\t"...)
-					r.ContentLength = int64(len(nb))
-					return bytes.NewReader(nb)
+				nilStage := "body"
+				if strings.HasPrefix(v.name, "putO") {
+					nilStage = "either"
+				}
+				bodyMut("nil body", nilStage, func(r *http.Request, raw []byte) io.Reader { r.ContentLength = 0; return nil })
+			}
+			// ---- text sweeps: every string up to a length over a hostile alphabet, at every textual
+			// position of the request (consistency oracle: no panic, one response, 4xx <=> handler not
+			// invoked, no 5xx for a request fault).  The hand-written menu above carries one malformed
+			// escape per position; a seeded out-of-range read needed "valid escape, then a truncated one".
+			var sweeps []fault
+			sweepLen := 4
+			if thorough {
+				sweepLen = 5
+			}
+			words := func(alpha string, n int) []string {
+				out := []string{""}
+				cur := []string{""}
+				for l := 0; l < n; l++ {
+					var next []string
+					for _, c := range cur {
+						for i := 0; i < len(alpha); i++ {
+							next = append(next, c+alpha[i:i+1])
+						}
+					}
+					out = append(out, next...)
+					cur = next
+				}
+				return out
+			}
+			sweep := func(pos, alpha string, n int, f func(r *http.Request, w string) bool) {
+				for _, w := range words(alpha, n) {
+					w := w
+					sweeps = append(sweeps, fault{pos, fmt.Sprintf("sweep %s %q", pos, w), "either", func(r *http.Request, body io.Reader, raw []byte) (*http.Request, io.Reader) {
+						if !f(r, w) {
+							return nil, body
+						}
+						return r, body
+					}})
+				}
+			}
+			const esc = "%41z;= \"+,"
+			if v.name == "postV" {
+				sweep("cookie", esc, sweepLen, func(r *http.Request, w string) bool { r.Header.Set("Cookie", "ck="+w); return true })
+				sweep("cookie-pair", "ck=;% 4\"", sweepLen+1, func(r *http.Request, w string) bool { r.Header.Set("Cookie", w); return true })
+				sweep("rawquery-q", esc+"&", sweepLen, func(r *http.Request, w string) bool { r.URL.RawQuery = "q=" + w + "&oq=1"; return true })
+				sweep("rawquery-oq", "%3120-+ e.", sweepLen, func(r *http.Request, w string) bool { r.URL.RawQuery = "q=a&oq=" + w; return true })
+				sweep("rawquery", "qo=&%4;a", sweepLen+1, func(r *http.Request, w string) bool { r.URL.RawQuery = w; return true })
+				sweep("rawpath", "%3721/.z", sweepLen+1, func(r *http.Request, w string) bool {
+					// only what net/http would hand to a handler: the request target must parse
+					u, err := url.ParseRequestURI("/v/" + w)
+					if err != nil {
+						return false
+					}
+					r.URL.Path, r.URL.RawPath = u.Path, u.RawPath
+					return true
 				})
-				for _, repl := range [][2]string{{`"abc"`, `1`}, {`1.5`, `"x"`}, {`1.5`, `0.3`}, {`"abc"`, `"ABC"`}, {`"s"`, `"zz"`}, {`{`, `{"extra":1,`}, {`"s":"abc"`, `"s":"abc","s":"abd"`}, {`1.5`, `null`}, {`[1,2]`, `[1,2,3,4]`}, {`[1,2]`, `[1,"a"]`}, {`[1,2]`, `{}`}, {`"k":[`, `"k":[null,`}, {`"n":1.5`, `"n":1.5e400`}, {`"abc"`, `"abc\ud800"`}} {
-					repl := repl
-					if !bytes.Contains(v.body, []byte(repl[0])) {
-						continue
-					}
-					st := "body"
-					if strings.Contains(repl[1], `"s":"abd"`) {
-						st = "either" // duplicate member: no agreed meaning
-					}
-					bodyMut("json "+repl[0]+" -> "+repl[1], st, func(r *http.Request, raw []byte) io.Reader {
-						nb := bytes.Replace(raw, []byte(repl[0]), []byte(repl[1]), 1)
-						r.ContentLength = int64(len(nb))
-						return bytes.NewReader(nb)
-					})
+				sweep("header", "h \t\xff,;\"%", sweepLen, func(r *http.Request, w string) bool { r.Header.Set("X-H", w); return true })
+				sweep("credential", "ok ,%\x00", sweepLen, func(r *http.Request, w string) bool { r.Header.Set("X-Key", w); return true })
+			}
+			if len(v.body) > 0 {
+				ct := v.req.Header.Get("Content-Type")
+				if i := strings.IndexByte(ct, ';'); i >= 0 {
+					ct = ct[:i]
 				}
-				bodyMut("100000-deep nesting", "body", func(r *http.Request, raw []byte) io.Reader {
-					nb := []byte(strings.Repeat("[", 100000))
-					r.ContentLength = int64(len(nb))
-					return bytes.NewReader(nb)
-				})
+				sweep("content-type-suffix", "; =\"/,ac*", sweepLen, func(r *http.Request, w string) bool { r.Header.Set("Content-Type", ct+w); return true })
+				sweep("content-type", "aj/;+* ", sweepLen, func(r *http.Request, w string) bool { r.Header.Set("Content-Type", w); return true })
 			}
-			nilStage := "body"
-			if strings.HasPrefix(v.name, "putO") {
-				nilStage = "either"
-			}
-			bodyMut("nil body", nilStage, func(r *http.Request, raw []byte) io.Reader { r.ContentLength = 0; return nil })
-		}
-		// ---- text sweeps: every string up to a length over a hostile alphabet, at every textual
-		// position of the request (consistency oracle: no panic, one response, 4xx <=> handler not
-		// invoked, no 5xx for a request fault).  The hand-written menu above carries one malformed
-		// escape per position; a seeded out-of-range read needed "valid escape, then a truncated one".
-		var sweeps []fault
-		sweepLen := 4
-		if thorough {
-			sweepLen = 5
-		}
-		words := func(alpha string, n int) []string {
-			out := []string{""}
-			cur := []string{""}
-			for l := 0; l < n; l++ {
-				var next []string
-				for _, c := range cur {
-					for i := 0; i < len(alpha); i++ {
-						next = append(next, c+alpha[i:i+1])
-					}
+			bodySweep := func(pos, alpha string, n int) {
+				for _, w := range words(alpha, n) {
+					w := w
+					sweeps = append(sweeps, fault{pos, fmt.Sprintf("sweep %s %q", pos, w), "either", func(r *http.Request, body io.Reader, raw []byte) (*http.Request, io.Reader) {
+						r.ContentLength = int64(len(w))
+						return r, strings.NewReader(w)
+					}})
 				}
-				out = append(out, next...)
-				cur = next
 			}
-			return out
-		}
-		sweep := func(pos, alpha string, n int, f func(r *http.Request, w string) bool) {
-			for _, w := range words(alpha, n) {
-				w := w
-				sweeps = append(sweeps, fault{pos, fmt.Sprintf("sweep %s %q", pos, w), "either", func(r *http.Request, body io.Reader, raw []byte) (*http.Request, io.Reader) {
-					if !f(r, w) {
-						return nil, body
-					}
-					return r, body
-				}})
+			switch v.name {
+			case "putO-json":
+				bodySweep("json-body", "[]1,\" {}-.e\\nu", sweepLen+1)
+			case "postF":
+				bodySweep("form-body", "ab=&%41+;", sweepLen+1)
+			case "putO-text":
+				bodySweep("text-body", "a\xff\x00\n", sweepLen)
 			}
-		}
-		const esc = "%41z;= \"+,"
-		if v.name == "postV" {
-			sweep("cookie", esc, sweepLen, func(r *http.Request, w string) bool { r.Header.Set("Cookie", "ck="+w); return true })
-			sweep("cookie-pair", "ck=;% 4\"", sweepLen+1, func(r *http.Request, w string) bool { r.Header.Set("Cookie", w); return true })
-			sweep("rawquery-q", esc+"&", sweepLen, func(r *http.Request, w string) bool { r.URL.RawQuery = "q=" + w + "&oq=1"; return true })
-			sweep("rawquery-oq", "%3120-+ e.", sweepLen, func(r *http.Request, w string) bool { r.URL.RawQuery = "q=a&oq=" + w; return true })
-			sweep("rawquery", "qo=&%4;a", sweepLen+1, func(r *http.Request, w string) bool { r.URL.RawQuery = w; return true })
-			sweep("rawpath", "%3721/.z", sweepLen+1, func(r *http.Request, w string) bool {
-				// only what net/http would hand to a handler: the request target must parse
-				u, err := url.ParseRequestURI("/v/" + w)
-				if err != nil {
-					return false
-				}
-				r.URL.Path, r.URL.RawPath = u.Path, u.RawPath
-				return true
-			})
-			sweep("header", "h \t\xff,;\"%", sweepLen, func(r *http.Request, w string) bool { r.Header.Set("X-H", w); return true })
-			sweep("credential", "ok ,%\x00", sweepLen, func(r *http.Request, w string) bool { r.Header.Set("X-Key", w); return true })
-		}
-		if len(v.body) > 0 {
-			ct := v.req.Header.Get("Content-Type")
-			if i := strings.IndexByte(ct, ';'); i >= 0 {
-				ct = ct[:i]
+			for _, f := range sweeps {
+				run(v, []fault{f}, "ok")
 			}
-			sweep("content-type-suffix", "; =\"/,ac*", sweepLen, func(r *http.Request, w string) bool { r.Header.Set("Content-Type", ct+w); return true })
-			sweep("content-type", "aj/;+* ", sweepLen, func(r *http.Request, w string) bool { r.Header.Set("Content-Type", w); return true })
-		}
-		bodySweep := func(pos, alpha string, n int) {
-			for _, w := range words(alpha, n) {
-				w := w
-				sweeps = append(sweeps, fault{pos, fmt.Sprintf("sweep %s %q", pos, w), "either", func(r *http.Request, body io.Reader, raw []byte) (*http.Request, io.Reader) {
-					r.ContentLength = int64(len(w))
-					return r, strings.NewReader(w)
-				}})
-			}
-		}
-		switch v.name {
-		case "putO-json":
-			bodySweep("json-body", "[]1,\" {}-.e\\nu", sweepLen+1)
-		case "postF":
-			bodySweep("form-body", "ab=&%41+;", sweepLen+1)
-		case "putO-text":
-			bodySweep("text-body", "a\xff\x00\n", sweepLen)
-		}
-		for _, f := range sweeps {
-			run(v, []fault{f}, "ok")
-		}
-		drv.Stat("sweep_requests_for_"+v.name, int64(len(sweeps)))
-		run(v, nil, "ok")
-		for _, ho := range []string{"error", "default", "notimpl"} {
-			run(v, nil, ho)
-		}
-		for _, f := range faults {
-			outs := []string{"ok"}
-			if f.stage == "none" {
-				outs = []string{"ok", "error", "default", "notimpl"}
-			}
-			for _, ho := range outs {
-				run(v, []fault{f}, ho)
-			}
-		}
-		// the same faults when the length of the body is not announced: every fault that does not
-		// itself concern the body bytes or their length
-		if len(v.body) > 0 {
-			unknownLength = true
+			drv.Stat("sweep_requests_for_"+v.name, int64(len(sweeps)))
 			run(v, nil, "ok")
+			for _, ho := range []string{"error", "default", "notimpl", "nil"} {
+				run(v, nil, ho)
+			}
 			for _, f := range faults {
-				if f.pos != "body" {
-					run(v, []fault{f}, "ok")
+				outs := []string{"ok"}
+				if f.stage == "none" {
+					outs = []string{"ok", "error", "default", "notimpl", "nil"}
+				}
+				for _, ho := range outs {
+					run(v, []fault{f}, ho)
 				}
 			}
-			unknownLength = false
-		}
-		if thorough {
-			for i, a := range faults {
-				for _, b := range faults[i+1:] {
-					if a.pos == b.pos || a.stage == b.stage || a.stage == "either" || b.stage == "either" {
-						continue
+			// the same faults when the length of the body is not announced: every fault that does not
+			// itself concern the body bytes or their length
+			if len(v.body) > 0 {
+				unknownLength = true
+				run(v, nil, "ok")
+				for _, f := range faults {
+					if f.pos != "body" {
+						run(v, []fault{f}, "ok")
 					}
-					// body faults that replace the reader do not compose with each other; different stages only
-					run(v, []fault{a, b}, "ok")
+				}
+				unknownLength = false
+			}
+			if thorough {
+				for i, a := range faults {
+					for _, b := range faults[i+1:] {
+						if a.pos == b.pos || a.stage == b.stage || a.stage == "either" || b.stage == "either" {
+							continue
+						}
+						// body faults that replace the reader do not compose with each other; different stages only
+						run(v, []fault{a, b}, "ok")
+					}
 				}
 			}
+			drv.Stat("faults_for_"+v.name, int64(len(faults)))
 		}
-		drv.Stat("faults_for_"+v.name, int64(len(faults)))
 	}
 	drv.Eval(evals)
 	drv.NontrivialN(evals)
